@@ -316,6 +316,58 @@ func checkC17(c *Ctx) {
 		}
 	}
 
+	// ---- C17-KEY: a key that cannot name a field is an error for an instance of a declared struct
+	{
+		symT := c.named("SexpSymbol")
+		found := false
+		var okVal ssa.Value
+		eachInstr(tcf, func(b *ssa.BasicBlock, i int, in ssa.Instruction) {
+			if ta, ok := in.(*ssa.TypeAssert); ok && ta.CommaOk && len(tcf.Params) > 1 && ta.X == ssa.Value(tcf.Params[1]) {
+				if nm, ok := derefNamed(ta.AssertedType); ok && nm == symT {
+					for _, r := range *ta.Referrers() {
+						if ex, ok := r.(*ssa.Extract); ok && ex.Index == 1 {
+							okVal = ex
+						}
+					}
+				}
+			}
+		})
+		if okVal != nil {
+			for _, r := range returnsOf(tcf) {
+				call, isCall := r.Results[0].(*ssa.Call)
+				if !isCall {
+					continue
+				}
+				g := call.Call.StaticCallee()
+				if g == nil || fnPkgPath(g) != "fmt" {
+					continue
+				}
+				if guardedBy(r.Block(), func(cond ssa.Value) (bool, bool) { return cond == okVal, false }) {
+					found = true
+				}
+			}
+		}
+		c.check(found, "C17-KEY", "SexpHash.TypeCheckField", "non-symbol key rejected for declared structs", tcf.Pos(),
+			"on the path where the key is not a symbol there is an error return of its own (besides the tolerated not-a-symbol answer for plain hashes)",
+			"every non-symbol key gets the tolerated not-a-symbol answer: (hset rec 5 v) or (hset rec \"Id\" v) adds an entry that is not a declared field to an instance of a declared struct")
+	}
+
+	// ---- C17-ELEM: an element written into a slice-typed field has the slice's element type
+	if f := c.fn("SexpArraySelector.AssignToSelection"); f != nil {
+		typF := c.field("SexpArray", "Typ")
+		checks := false
+		if typF != nil {
+			eachInstr(f, func(b *ssa.BasicBlock, i int, in ssa.Instruction) {
+				if fa, ok := in.(*ssa.FieldAddr); ok && faField(fa) == typF {
+					checks = true
+				}
+			})
+		}
+		c.check(checks, "C17-ELEM", "SexpArraySelector.AssignToSelection", "element store checks the element type", f.Pos(),
+			"the value stored through an index selector is compared with the container's element type",
+			"index assignment stores the value into the container without consulting the container's element type: an element of a slice-typed field of a declared struct can be overwritten with a value of another type")
+	}
+
 	// ---- C17-MAKE
 	if mk := c.mustFn("C17-MAKE", "MakeHash"); mk != nil {
 		tcr := c.mustFn("C17-MAKE", "RegisteredType.TypeCheckRecord")
